@@ -115,8 +115,21 @@ def cspec(T, abi, op, params):
     if op == "magnitude": a, = params; return "fo.sqrt%d (%s)" % (w, f("add", f("mul", re(a), re(a)), f("mul", im(a), im(a))))
     return None
 
+def fhspec(T, abi, op, params):
+    """float horizontals: the fold over all lanes, under associativity and commutativity of the operation (the code fixes
+    one association tree; the hand-written theorems of Props/C08.lean state the trees themselves)"""
+    w = W[T]; N = BITS[abi] // w
+    E = (lambda v, k: "%s %d" % (v, k)) if w == 32 else (lambda v, k: "lane64 %s %d" % (v, k))
+    v = params[0]
+    opn = {"sum": "add", "product": "mul", "dot": "add", "minimum": "min", "maximum": "max"}.get(op)
+    if opn is None: return None
+    if op == "dot": els = ["fo.mul%d (%s) (%s)" % (w, E(v, k), E(params[1], k)) for k in range(N)]
+    else: els = ["(%s)" % E(v, k) for k in range(N)]
+    return ("HYP", "fo.%s%d" % (opn, w), "[%s].foldl fo.%s%d (%s)" % (", ".join(els[1:]), opn, w, els[0]))
+
 def hspec(T, abi, op, params):
     """integer horizontal operations = the fold over all lanes (float ones: association trees, by hand in Props/C08.lean)"""
+    if T in ("float", "double"): return fhspec(T, abi, op, params)
     if T not in ("int32", "int64"): return None
     w = W[T]; N = BITS[abi] // w
     E = (lambda v, k: "%s %d" % (v, k)) if w == 32 else (lambda v, k: "lane64 %s %d" % (v, k))
@@ -175,6 +188,16 @@ def main():
                 try: hr = hspec(T, abi, op, [p[0] for p in ps])
                 except Exception: hr = None
                 if hr is None: skipped.append(name); continue
+                if isinstance(hr, tuple):
+                    _, fop, rhs2 = hr
+                    call = "%s.%s%s%s" % (isa, name, " fo" if has_fo else "", "".join(" " + p[0] for p in ps))
+                    binder = "(fo : FOps) (hassoc : ∀ x y z, %s (%s x y) z = %s x (%s y z)) (hcomm : ∀ x y, %s x y = %s y x) " % ((fop,) * 6) + " ".join("(%s : %s)" % p for p in ps)
+                    unf = ", ".join("%s.%s" % (isa, d) for d in closure(defs, name))
+                    lines.append("theorem %s_%s_%s %s :\n    %s = %s := by" % (T, abi, op, binder, call, rhs2))
+                    lines.append("  have : Std.Associative %s := ⟨hassoc⟩" % fop)
+                    lines.append("  have : Std.Commutative %s := ⟨hcomm⟩" % fop)
+                    lines.append("  first | (simp [simd, %s, lane64, List.foldl]; done) | (simp [simd, %s, lane64, List.foldl]; ac_rfl)" % (unf, unf))
+                    n += 1; continue
                 call = "%s.%s%s%s" % (isa, name, " fo" if has_fo else "", "".join(" " + p[0] for p in ps))
                 binder = " ".join("(%s : %s)" % p for p in ps)
                 unf = ", ".join("%s.%s" % (isa, d) for d in closure(defs, name))
